@@ -62,6 +62,40 @@ func VHAtomicValue() {
 		v.Store(init)
 		has = true
 	}
+	c18conc(&v, has, init)
+}
+
+// VHAtomicValueAged: the same after a long sequential life of the value - HIST rounds of failed
+// and successful CompareAndSwap, Store, Swap and Load, each checked against the register - so
+// that anything an AtomicValue counts or adapts over its lifetime (contention counters,
+// switched-over slow paths) is in its late state when the concurrent calls arrive.
+func VHAtomicValueAged() {
+	var v AtomicValue[int]
+	hist := vParam("HIST")
+	v.Store(0)
+	cur := 0
+	for i := 1; i <= hist; i++ {
+		vAssert(!v.CompareAndSwap(-1, -2), "aged value: a CompareAndSwap with the wrong old value fails")
+		vAssert(v.Load() == cur, "aged value: Load returns the value stored last")
+		switch i % 4 {
+		case 0:
+			vAssert(v.CompareAndSwap(cur, i), "aged value: a CompareAndSwap with the right old value succeeds")
+			cur = i
+		case 1:
+			v.Store(i)
+			cur = i
+		case 2:
+			vAssert(v.Swap(i) == cur, "aged value: Swap returns the previous value")
+			cur = i
+		}
+	}
+	init := vInt("s0")
+	v.Store(init)
+	c18conc(&v, true, init)
+}
+
+func c18conc(vp *AtomicValue[int], has bool, init int) {
+	v := vp
 	nt, per := vParam("T"), vParam("OPS")
 	ops := make([]*linOp, 0, nt*per)
 	for t := 0; t < nt; t++ {
@@ -73,7 +107,7 @@ func VHAtomicValue() {
 		name := "t" + string(rune('0'+t))
 		vGo(func() {
 			for i, o := range mine {
-				c18do(&v, o, name+"."+string(rune('0'+i)))
+				c18do(v, o, name+"."+string(rune('0'+i)))
 			}
 		})
 	}
